@@ -10,10 +10,8 @@ import Torf.Properties.C03
 namespace Torf.C01
 open Torf Torf.Stream Torf.Generate Torf.Pipeline Torf.C03
 
-/-- the arrival order of the digests, as `(index, piece)` tasks, for the order `c` in which the
-    collector received the piece indexes -/
-def arrivalOf (tasks : List (Nat × List α)) (c : List Nat) : List (Nat × List α) :=
-  c.filterMap fun i => tasks[i]?
+/- `arrivalOf tasks c` (the arrival order of the digests, as `(index, piece)` tasks, for the order
+   `c` in which the collector received the piece indexes) is defined in `Model/Generate.lean`. -/
 
 theorem arrivalOf_range (tasks : List (Nat × List α)) :
     arrivalOf tasks (List.range tasks.length) = tasks := by
